@@ -18,11 +18,11 @@ ASSUMPTIONS = ["lentil's physical constants differ from CODATA by < 1e-6 relativ
 EXHAUSTIVE = True
 PLAN = {'quick': {'gen': 4}, 'thorough': {'gen': 8, 'tests': 1, 'docs': 1}}
 REQUIRED_BUCKETS = ['wave-triple', 'flux-triple', 'spectrum.to:density', 'spectrum.to:unitless', 'spectrum.to:flux-roundtrip', 'spectrum.to:multi', 'spectrum.sample:unit', 'blackbody:converted',
-                    'planck:radiance', 'planck:exitance', 'wien', 'stefan-boltzmann', 'vega']
+                    'planck:radiance', 'planck:exitance', 'planck:forms', 'wien', 'stefan-boltzmann', 'vega']
 REQUIRED_ANCHORS = ['anchor:Spectrum.to', 'anchor:planck_radiance', 'anchor:planck_exitance', 'anchor:vegaflux',
                     'anchor:Photlam.to', 'anchor:Micron.to']
 REQUIRED_ORACLES = ['wave:compose', 'wave:identity', 'wave:roundtrip', 'wave=si', 'flux:compose', 'flux:identity',
-                    'flux:roundtrip', 'flux=si', 'to:integral', 'to:values', 'to:flux-roundtrip', 'to:multi', 'planck=si',
+                    'flux:roundtrip', 'flux=si', 'to:integral', 'to:values', 'to:flux-roundtrip', 'to:multi', 'planck=si', 'planck:forms',
                     'exitance=pi*radiance', 'wien', 'stefan-boltzmann', 'vega']
 
 
@@ -220,7 +220,9 @@ def workload(ctx, lentil):
             wm = q_nm * 1e-9
             ref_si = sm.planck_radiance_si(wm, T)
             stored = sm.flux_to_wlam_si(np.interp(q_nm, wave_nm, np.asarray(bb.value, float)) / sm.WAVE_M[u1], v1, wm)
-            got = np.asarray(bb.sample(q_nm * sm.wave_factor('nm', u1), waveunit=u1), float)
+            # the wavelength unit is the second parameter of Blackbody.sample: by keyword or by position
+            got = np.asarray(bb.sample(q_nm * sm.wave_factor('nm', u1), waveunit=u1) if i % 2 else
+                             bb.sample(q_nm * sm.wave_factor('nm', u1), u1), float)
             got_si = sm.flux_to_wlam_si(got / sm.WAVE_M[u1], v1, wm)
             ctx.close('planck=si', got_si / ref_si, np.ones(3), 1e-5, 'blackbody|sample-after-to',
                       'a Blackbody converted to other units no longer samples Planck\'s law in its current units', desc, scale=1.0)
@@ -253,6 +255,27 @@ def workload(ctx, lentil):
                 nz = np.asarray(L, float) != 0
                 ctx.close('exitance=pi*radiance', (np.asarray(M, float)[nz] / np.asarray(L, float)[nz]), np.full(int(nz.sum()), np.pi), 1e-12,
                           f'planck|exitance|{wu}|{vu}', 'exitance is not pi times radiance', desc, scale=np.pi)
+        # the three flux forms of Planck's law agree with each other through lentil's own converters to rounding (one set of
+        # constants everywhere), far tighter than the comparison with the CODATA reference above can resolve
+        for wu in sm.WAVE_CANON:
+            wave = (wave_m / sm.WAVE_M[wu])[::397]
+            ctx.case({'planck-forms': T, 'waveunit': wu}, ['planck:forms'])
+            try:
+                forms = {}
+                for vu in sm.FLUX:
+                    sp = R.Spectrum(wave, np.asarray(R.planck_radiance(wave, T, wu, vu), float), waveunit=wu, valueunit=vu)
+                    sp.to('wlam')
+                    forms[vu] = np.asarray(sp.value, float)
+                    bbv = R.Blackbody(wave, T, waveunit=wu, valueunit=vu)
+                    bbv.to('wlam')
+                    forms['bb:' + vu] = np.asarray(bbv.value, float) * np.pi / np.pi
+                ok = forms['wlam'] > forms['wlam'].max() * 1e-250
+                for vu in ('photlam', 'flam', 'bb:photlam', 'bb:flam', 'bb:wlam'):
+                    ctx.close('planck:forms', (forms[vu] / np.where(ok, forms['wlam'], 1))[ok], np.ones(int(ok.sum())), 1e-10,
+                              f'planck|forms|{vu}', 'Planck radiance requested in one flux unit and converted with lentil\'s own unit '
+                              'conversion differs from Planck radiance requested in the other', {'T': T, 'waveunit': wu, 'form': vu}, scale=1.0)
+            except Exception as e:
+                ctx.check(False, 'planck:forms', f'planck-forms|raises={type(e).__name__}', str(e), {'T': T, 'waveunit': wu})
         # Wien peak (energy and photon form) on the dense grid, SI units via nm/wlam and nm/photlam
         ctx.case({'wien': T}, ['wien'])
         wave_nm = wave_m / 1e-9
